@@ -109,6 +109,9 @@ class Ev:
             if n == "pi":
                 self.u.used.add("pi")
                 return Val(num.PI, REAL)
+            if n == "e":
+                self.u.used.add("e")
+                return Val(num.E_, REAL)
         if n in ("True", "False"):
             return Val(z3.BoolVal(n == "True"), BOOL)
         if n in self.ct.classes:
